@@ -3,6 +3,7 @@ import PrysmVerif.Lemmas.C09Der
 import PrysmVerif.Lemmas.C09Fam
 import PrysmVerif.Lemmas.C09Asm
 import PrysmVerif.Lemmas.C09Tail
+import PrysmVerif.Lemmas.C09Surf
 /-!
 # C09 — derivative routines return the derivatives of the routines they name
 
@@ -193,6 +194,58 @@ theorem gen_laguerre_recurrence [CharZero F] (al x : F) (n : Nat) :
 theorem gen_zz_one_term (a00 a10 u usq : F) : zzQbfsOne a00 a10 u usq = zzQbfsMany a00 0 a10 0 u usq := by
   simp only [zzQbfsOne, zzQbfsMany, ofInt_eq]
   refine Prod.ext ?_ ?_ <;> (simp only []; push_cast; ring)
+
+/-- `x/raytracing/surfaces.py`, on-axis conics: the radicands, sags and slope formulas read from the source are the model's -/
+theorem gen_surf_conics (c kappa q rho phi : F) :
+    surfConicSagRad c kappa q = phiRad c kappa q ∧ surfSphereSagRad c q = phiRad c 0 q ∧
+    surfConicSag c kappa q phi = conicSag c q phi ∧ surfSphereSag c q phi = conicSag c q phi ∧
+    surfConicSagDerRad c kappa rho = phiRad c kappa (rho * rho) ∧ surfSphereSagDerRad c rho = phiRad c 0 (rho * rho) ∧
+    surfConicSagDer c kappa rho phi = conicSagDer c rho phi ∧ surfSphereSagDer c rho phi = conicSagDer c rho phi ∧
+    surfDirCosDer c kappa rho phi = dirCosDer c kappa rho phi ∧ surfPhiSpheroidRad c kappa q = phiRad c kappa q ∧
+    surfDirCosUsesPhiSpheroidOfRhoSquared = true := by
+  simp only [surfConicSagRad, surfSphereSagRad, surfConicSag, surfSphereSag, surfConicSagDerRad, surfSphereSagDerRad,
+    surfConicSagDer, surfSphereSagDer, surfDirCosDer, surfPhiSpheroidRad, phiRad, conicSag, conicSagDer, dirCosDer,
+    ofInt_eq, npow_eq]
+  refine ⟨?_, ?_, ?_, ?_, ?_, ?_, ?_, ?_, ?_, ?_, by decide⟩ <;> first | (push_cast; ring) | push_cast | rfl
+
+/-- off-axis conic sections (shift along x: `ct = cos t`, `ct' = -sin t`; along y: `ct = sin t`, `ct' = cos t`), for EVERY
+interpretation of `np.sqrt` and with `w ** (3/2)` read as the cube of `√w` -/
+theorem gen_surf_off_axis (sqrtF pow32 : F → F) (hp : ∀ w, pow32 w = sqrtF w * sqrtF w * sqrtF w) (c kappa r s cost sint : F) :
+    surfOacSagX sqrtF pow32 c kappa r s cost sint
+      = conicSag c (oacAgg r s cost) (sqrtF (phiRad c kappa (oacAgg r s cost))) ∧
+    surfOacSagY sqrtF pow32 c kappa r s cost sint
+      = conicSag c (oacAgg r s sint) (sqrtF (phiRad c kappa (oacAgg r s sint))) ∧
+    surfOacDerX sqrtF pow32 c kappa r s cost sint
+      = oacDer c kappa r s cost (-sint) (sqrtF (phiRad c kappa (oacAgg r s cost))) ∧
+    surfOacDerY sqrtF pow32 c kappa r s cost sint
+      = oacDer c kappa r s sint cost (sqrtF (phiRad c kappa (oacAgg r s sint))) ∧
+    surfOacSigmaX sqrtF pow32 c kappa r s cost sint
+      = oacSigma (sqrtF (phiRad c kappa (oacAgg r s cost))) (sqrtF (psiRad c kappa (oacAgg r s cost))) ∧
+    surfOacSigmaY sqrtF pow32 c kappa r s cost sint
+      = oacSigma (sqrtF (phiRad c kappa (oacAgg r s sint))) (sqrtF (psiRad c kappa (oacAgg r s sint))) ∧
+    surfOacSigmaDerX sqrtF pow32 c kappa r s cost sint
+      = oacSigmaInvDer c kappa r s cost (-sint) (sqrtF (phiRad c kappa (oacAgg r s cost))) (sqrtF (psiRad c kappa (oacAgg r s cost))) ∧
+    surfOacSigmaDerY sqrtF pow32 c kappa r s cost sint
+      = oacSigmaInvDer c kappa r s sint cost (sqrtF (phiRad c kappa (oacAgg r s sint))) (sqrtF (psiRad c kappa (oacAgg r s sint))) := by
+  have ex : ∀ ct : F, (1 : F) - (1 + kappa) * (c * c) * (r * r + 2 * s * r * ct + s * s) = phiRad c kappa (oacAgg r s ct) := by
+    intro ct; simp only [phiRad, oacAgg, ofInt_eq]; push_cast; ring
+  have ey : ∀ ct : F, (1 : F) - kappa * (c * c) * (r * r + 2 * s * r * ct + s * s) = psiRad c kappa (oacAgg r s ct) := by
+    intro ct; simp only [psiRad, oacAgg, ofInt_eq]; push_cast; ring
+  simp only [surfOacSagX, surfOacSagY, surfOacDerX, surfOacDerY, surfOacSigmaX, surfOacSigmaY, surfOacSigmaDerX, surfOacSigmaDerY,
+    hp, ofInt_eq]
+  push_cast
+  simp only [ex, ey]
+  simp only [conicSag, oacDer, oacSigma, oacSigmaInvDer, oacAgg, ofInt_eq]
+  push_cast
+  refine ⟨?_, ?_, ?_, ?_, ?_, ?_, ?_, ?_⟩ <;>
+    first | rfl | trivial | (refine Prod.ext ?_ ?_ <;> first | rfl | (simp only []; ring) | ring)
+
+/-- `Q2d_and_der`: `zprimer /= Rn`, two product rules, `z *= σ⁻¹`, the three additions of the base conic -/
+theorem gen_surf_q2d_and_der (sigInv z zr zt sr st base br bt Rn : F) :
+    surfQ2dAsm sigInv z zr zt sr st base br bt Rn = q2dAndDer sigInv z zr zt sr st base br bt Rn ∧
+    surfQ2dFeedsTheAssemblyFromTheNamedRoutines = true := by
+  refine ⟨?_, by decide⟩
+  simp only [surfQ2dAsm, q2dAndDer]
 end GenField
 
 /-! ## the property -/
@@ -287,6 +340,67 @@ theorem qcon_sag_is_sum [DecidableEq F] (al be : F) (cs : List F) (u : F) :
     (zzQconG (jacFam al be) cs u).1 = (u * u * (u * u)) * wsum ((jacFam al be).p (2 * (u * u) - 1)) 0 cs :=
   zzQconG_sag _ (by intro n; simp [jacFam]) (by simp [jacFam]) cs u
 end Main
+
+/-! ## conic base surfaces of `x/raytracing/surfaces.py` (real derivatives, `Real.sqrt / cos / sin`) -/
+section Surfaces
+open Real
+
+/-- **`sphere_sag_der`, `conic_sag_der`**: at every radius inside the domain (`1 - (1+κ)c²ρ² > 0`), `c ρ / φ` is the
+derivative of the sag `c ρ² / (1 + φ)`, `φ = √(1 - (1+κ) c² ρ²)` (`κ = 0`: sphere) -/
+theorem conic_sag_der_correct (c kappa rho : ℝ) (h : 0 < phiRad c kappa (rho * rho)) :
+    HasDerivAt (fun r => conicSag c (r * r) (√(phiRad c kappa (r * r))))
+      (conicSagDer c rho (√(phiRad c kappa (rho * rho)))) rho := C10L.conic_sag_der_correct c kappa rho h
+
+/-- **`der_direction_cosine_spheroid`**: `(1+k) c² ρ / φ³` is the derivative of `1/φ` -/
+theorem dir_cos_der_correct (c k rho : ℝ) (h : 0 < phiRad c k (rho * rho)) :
+    HasDerivAt (fun r => 1 / √(phiRad c k (r * r))) (dirCosDer c k rho (√(phiRad c k (rho * rho)))) rho :=
+  C10L.dir_cos_der_correct c k rho h
+
+/-- **`off_axis_conic_der`**: `∂/∂r` (any shift direction) and `∂/∂t` (shift along x, along y) of `off_axis_conic_sag` -/
+theorem off_axis_conic_der_correct (c kappa r s t : ℝ) :
+    (∀ ct ctp, 0 < phiRad c kappa (oacAgg r s ct) →
+      HasDerivAt (fun q => conicSag c (oacAgg q s ct) (√(phiRad c kappa (oacAgg q s ct))))
+        (oacDer c kappa r s ct ctp (√(phiRad c kappa (oacAgg r s ct)))).1 r) ∧
+    (0 < phiRad c kappa (oacAgg r s (cos t)) →
+      HasDerivAt (fun q => conicSag c (oacAgg r s (cos q)) (√(phiRad c kappa (oacAgg r s (cos q)))))
+        (oacDer c kappa r s (cos t) (-sin t) (√(phiRad c kappa (oacAgg r s (cos t))))).2 t) ∧
+    (0 < phiRad c kappa (oacAgg r s (sin t)) →
+      HasDerivAt (fun q => conicSag c (oacAgg r s (sin q)) (√(phiRad c kappa (oacAgg r s (sin q)))))
+        (oacDer c kappa r s (sin t) (cos t) (√(phiRad c kappa (oacAgg r s (sin t))))).2 t) :=
+  ⟨fun ct ctp h => oac_der_r_correct c kappa r s ct ctp h, oac_der_t_cos_correct c kappa r s t, oac_der_t_sin_correct c kappa r s t⟩
+
+/-- **`off_axis_conic_sigma_der`**: `∂/∂r`, `∂/∂t` of `1/off_axis_conic_sigma = ψ/φ` -/
+theorem off_axis_conic_sigma_der_correct (c kappa r s t : ℝ) :
+    (∀ ct ctp, 0 < phiRad c kappa (oacAgg r s ct) → 0 < psiRad c kappa (oacAgg r s ct) →
+      HasDerivAt (fun q => √(psiRad c kappa (oacAgg q s ct)) / √(phiRad c kappa (oacAgg q s ct)))
+        (oacSigmaInvDer c kappa r s ct ctp (√(phiRad c kappa (oacAgg r s ct))) (√(psiRad c kappa (oacAgg r s ct)))).1 r) ∧
+    (0 < phiRad c kappa (oacAgg r s (cos t)) → 0 < psiRad c kappa (oacAgg r s (cos t)) →
+      HasDerivAt (fun q => √(psiRad c kappa (oacAgg r s (cos q))) / √(phiRad c kappa (oacAgg r s (cos q))))
+        (oacSigmaInvDer c kappa r s (cos t) (-sin t) (√(phiRad c kappa (oacAgg r s (cos t))))
+          (√(psiRad c kappa (oacAgg r s (cos t))))).2 t) ∧
+    (0 < phiRad c kappa (oacAgg r s (sin t)) → 0 < psiRad c kappa (oacAgg r s (sin t)) →
+      HasDerivAt (fun q => √(psiRad c kappa (oacAgg r s (sin q))) / √(phiRad c kappa (oacAgg r s (sin q))))
+        (oacSigmaInvDer c kappa r s (sin t) (cos t) (√(phiRad c kappa (oacAgg r s (sin t))))
+          (√(psiRad c kappa (oacAgg r s (sin t))))).2 t) :=
+  ⟨fun ct ctp h hL => sigma_inv_der_r_correct c kappa r s ct ctp h hL, sigma_inv_der_t_cos_correct c kappa r s t,
+   sigma_inv_der_t_sin_correct c kappa r s t⟩
+
+/-- **`Q2d_and_der`**: the returned slopes are the derivatives of the returned sag `z(ρ/Rn)·σ⁻¹ + base` whenever its three
+ingredients are differentiable with the slopes handed to the assembly -/
+theorem q2d_and_der_correct (zf sf bf : ℝ → ℝ) (x z' s' b' Rn : ℝ) (hR : Rn ≠ 0)
+    (hz : HasDerivAt zf z' (x / Rn)) (hs : HasDerivAt sf s' x) (hb : HasDerivAt bf b' x) (zt st bt : ℝ) :
+    HasDerivAt (fun q => zf (q / Rn) * sf q + bf q) (q2dAndDer (sf x) (zf (x / Rn)) z' zt s' st (bf x) b' bt Rn).2.1 x :=
+  C10L.q2d_and_der_correct zf sf bf x z' s' b' Rn hR hz hs hb zt st bt
+
+theorem q2d_and_der_azimuthal_correct (zf sf bf : ℝ → ℝ) (x z' s' b' : ℝ)
+    (hz : HasDerivAt zf z' x) (hs : HasDerivAt sf s' x) (hb : HasDerivAt bf b' x) (zr sr br Rn : ℝ) :
+    HasDerivAt (fun q => zf q * sf q + bf q) (q2dAndDer (sf x) (zf x) zr z' sr s' (bf x) br b' Rn).2.2 x :=
+  q2d_and_der_t_correct zf sf bf x z' s' b' hz hs hb zr sr br Rn
+
+/-- the hypotheses are satisfiable: a concave conic well inside its domain -/
+example : 0 < phiRad (1 / 20 : ℝ) (-7 / 10) (2 * 2) ∧ 0 < psiRad (1 / 20 : ℝ) (-7 / 10) (2 * 2) := by
+  simp only [phiRad, psiRad, C10L.ofInt_eq]; norm_num
+end Surfaces
 
 /-! ## product / chain rule assemblies in any commutative ring with a derivation -/
 section Derivation
